@@ -121,6 +121,27 @@ def run(tier, seed, escalate=False):
                     open(df, "wb").write(orig)
                 elif cfg2 is not None:
                     shutil.rmtree(c["dir"]); shutil.copytree(os.path.join(backup, "d"), c["dir"])
+        # fields that restate the sizes without entering the layout: whatever they hold, the importer raises / warns / returns
+        # the intact import — judged against the intact import alone (the strict model reads the same bytes either way)
+        for c in cases:
+            kit = KITS[c["kit"]]
+            if not hasattr(kit, "redundant_patches"):
+                continue
+            df = data_file(kit, c["path"])
+            orig = open(df, "rb").read()
+            for label, off, bts in kit.redundant_patches(c["cfg"]):
+                b = bytearray(orig); b[off: off + len(bts)] = bts
+                try:
+                    open(df, "wb").write(bytes(b))
+                    n_eval += 1
+                    dist["redundant-field"] = dist.get("redundant-field", 0) + 1
+                    cls, err = classify(kit, c, c["path"])
+                    full = cls != "subset-of-intact" or len(label_dict(do_import(kit, c["path"])[0]) or {}) == len(label_dict(c["intact"]) or {})
+                    if cls == "SILENT-WRONG" or not full:
+                        key = "C19:%s:silently-wrong:redundant-field:%s" % (c["kit"], label.split("[")[0].split("-")[0])
+                        fails.append({"key": key, "clause": key, "ops": [{"kit": c["kit"], "cfg": c["cfg"], "field": label}]})
+                finally:
+                    open(df, "wb").write(orig)
     finally:
         shutil.rmtree(work, ignore_errors=True)
     seen, uniq = set(), []
